@@ -512,6 +512,135 @@ func renderSQL(d *ioDoc, dialect string, rng *rand.Rand, shape map[string]any) s
 }
 
 // ---------------------------------------------------------------------------------------------------------
+// rendering: Avro schema and Protocol Buffers (beyond the listed properties: the importers C11 does not name)
+
+func avroPrim(base string) any {
+	switch base {
+	case "int":
+		return "long"
+	case "float":
+		return "double"
+	case "bool":
+		return "boolean"
+	case "date":
+		return m{"type": "int", "logicalType": "date"}
+	case "datetime":
+		return m{"type": "long", "logicalType": "timestamp-millis"}
+	}
+	return "string"
+}
+
+// renderAvro writes the types as a top-level union of named records and enums (every type before its first use).
+func renderAvro(d *ioDoc) (string, error) {
+	defined := map[string]bool{}
+	var out []any
+	var def func(name string) any
+	typeOf := func(base string) any {
+		if strings.HasPrefix(base, "ref:") {
+			n := base[4:]
+			if defined[n] {
+				return n
+			}
+			return def(n)
+		}
+		return avroPrim(base)
+	}
+	def = func(name string) any {
+		t := d.typ(name)
+		defined[name] = true
+		if t.Kind == "enum" {
+			syms := []string{}
+			for _, v := range t.Vals {
+				syms = append(syms, v.Name)
+			}
+			return m{"type": "enum", "name": name, "symbols": syms}
+		}
+		fields := []any{}
+		for _, f := range t.Fields {
+			var ft any = typeOf(f.Base)
+			if f.Arr {
+				ft = m{"type": "array", "items": ft}
+			}
+			fd := m{"name": f.Name, "type": ft}
+			if !f.Req {
+				fd["type"] = []any{"null", ft}
+				fd["default"] = nil
+			}
+			fields = append(fields, fd)
+		}
+		return m{"type": "record", "name": name, "fields": fields}
+	}
+	for _, t := range d.Types {
+		if !defined[t.Name] {
+			out = append(out, def(t.Name))
+		}
+	}
+	var doc any = out
+	if len(out) == 1 {
+		doc = out[0]
+	}
+	b, err := json.MarshalIndent(doc, "", "  ")
+	return string(b), err
+}
+
+func protoPrim(base string) string {
+	switch base {
+	case "int":
+		return "int64"
+	case "float":
+		return "double"
+	case "bool":
+		return "bool"
+	}
+	return "string"
+}
+
+func renderProto(d *ioDoc) string {
+	var sb strings.Builder
+	sb.WriteString("syntax = \"proto3\";\npackage " + ioApp + ";\n\n")
+	for _, t := range d.Types {
+		if t.Kind == "enum" {
+			fmt.Fprintf(&sb, "enum %s {\n", t.Name)
+			zero := false
+			for _, v := range t.Vals {
+				zero = zero || v.Num == 0
+			}
+			if !zero { // proto3: the first value of an enumeration is zero
+				fmt.Fprintf(&sb, "  %s_UNSPECIFIED = 0;\n", strings.ToUpper(t.Name))
+			}
+			for _, v := range t.Vals {
+				if v.Num == 0 {
+					fmt.Fprintf(&sb, "  %s = 0;\n", v.Name)
+				}
+			}
+			for _, v := range t.Vals {
+				if v.Num != 0 {
+					fmt.Fprintf(&sb, "  %s = %d;\n", v.Name, v.Num)
+				}
+			}
+			sb.WriteString("}\n\n")
+			continue
+		}
+		fmt.Fprintf(&sb, "message %s {\n", t.Name)
+		for i, f := range t.Fields {
+			ty := protoPrim(f.Base)
+			if strings.HasPrefix(f.Base, "ref:") {
+				ty = f.Base[4:]
+			}
+			label := ""
+			if f.Arr {
+				label = "repeated "
+			} else if !f.Req {
+				label = "optional "
+			}
+			fmt.Fprintf(&sb, "  %s%s %s = %d;\n", label, ty, f.Name, i+1)
+		}
+		sb.WriteString("}\n\n")
+	}
+	return sb.String()
+}
+
+// ---------------------------------------------------------------------------------------------------------
 // rendering: Sysl (export direction)
 
 func syslType(base string, arr bool) string {
@@ -834,6 +963,9 @@ func (v *modelView) facts() [][]string {
 		b, arr, _ := v.base(t)
 		if b == "enum" {
 			b = "string"
+			for item := range t.GetEnum().GetItems() {
+				fs.add("V", name, item)
+			}
 		}
 		fs.add("A", name, b, b01(arr))
 	}
@@ -1125,6 +1257,8 @@ func importerFormat(f string) string {
 	switch f {
 	case "spanner":
 		return "spannerSQL"
+	case "proto":
+		return "protobuf"
 	}
 	return f
 }
@@ -1221,6 +1355,11 @@ func interopImport(w *tr.Writer, sc *ioScenario, logger *logrus.Logger) {
 			content, err = encodeDoc(renderOpenAPI(&sc.Doc, sc.Fmt == "openapi3", pl, shape), sc.Enc)
 		case "xsd":
 			ext, content = ".xsd", renderXSD(&sc.Doc)
+		case "avro":
+			ext = ".avsc"
+			content, err = renderAvro(&sc.Doc)
+		case "proto":
+			ext, content = ".proto", renderProto(&sc.Doc)
 		default:
 			ext, content = ".sql", renderSQL(&sc.Doc, sc.Fmt, rng, shape)
 		}
